@@ -86,7 +86,7 @@ def object_lines(problem):
     """the lines every object formats to, in the writer's order (on a deep copy: formatting mutates)"""
     p = copy.deepcopy(problem)
     v = p.mcnp_version
-    out = {"message": [], "title": "", "cells": [], "surfaces": [], "data": []}
+    out = {"message": [], "title": "", "cells": [], "surfaces": [], "data": [], "data_owner": []}
     if p.message:
         ls = p.message.format_for_mcnp_input(v)
         out["message"] = ls[:-1] if ls and ls[-1] == "" else ls
@@ -95,9 +95,13 @@ def object_lines(problem):
         out["cells"].append(c.format_for_mcnp_input(v))
     for s in p.surfaces:
         out["surfaces"].append(s.format_for_mcnp_input(v))
-    for d in p.data_inputs:
-        out["data"] += split_cards(d.format_for_mcnp_input(v))
-    out["data"] += split_cards(p.cells._run_children_format_for_mcnp(p.data_inputs, v))
+    for i, d in enumerate(p.data_inputs):
+        cs = split_cards(d.format_for_mcnp_input(v))
+        out["data"] += cs
+        out["data_owner"] += [i] * len(cs)
+    cs = split_cards(p.cells._run_children_format_for_mcnp(p.data_inputs, v))
+    out["data"] += cs
+    out["data_owner"] += ["modifier"] * len(cs)
     return out
 
 
